@@ -1,11 +1,5 @@
 """fragments of btcdeb.cpp main() small enough to stand alone (R-PARTIAL): the stdin script reader"""
 from slice import *
-def unit_stdin():
-    t = '#include "verif_std.h"\n#include "stdin_env.h"\n'
-    frag = between('btcdeb.cpp', r'^        char buf\[1024\];$', r'^        script_str = strdup\(buf\);$', include_end=True)
-    t += 'static char* verif_stdin_script() {\n    char* script_str = 0;\n    {\n' + frag + '    }\n    return script_str;\n}\n'
-    return t + '\n#include "h_stdin.h"\n'
-
 def unit_eval_parse():
     """exec's token parser: Instance::eval from its first line up to (not including) the execution loop (R-PARTIAL)"""
     from props import units_enc as UE
